@@ -79,6 +79,57 @@ def gen_lp(rng, big=False):
     return {"c": c, "A": A, "b": b, "minimize": minimize, "max_iter": max_iter}
 
 
+INEXACT = [3, -3, 5, -5, 7, -7, 9, -9, 11, -11, 6, 10, 13]
+
+
+def gen_lp_inexact(rng):
+    """Integer LPs whose float pivots are inexact (coefficients 3, 5, 7, 9, 11, ... give thirds / sevenths after one pivot)
+    combined with the forced-degeneracy shapes: a base row together with its opposite (an equality written as two
+    inequalities, or an infeasible / slack pair with gap -1 / +1), duplicates, scaled duplicates, rows with rhs 0."""
+    n = rng.choice([1, 2, 2, 2, 3, 3, 4])
+    pz = rng.choice([0.0, 0.0, 0.25, 0.4])
+
+    def coef():
+        if rng.random() < pz:
+            return 0
+        return rng.choice(INEXACT) if rng.random() < 0.75 else rng.randint(-3, 3)
+
+    def row():
+        r = [coef() for _ in range(n)]
+        if not any(r):
+            r[rng.randrange(n)] = rng.choice(INEXACT)
+        return r
+
+    A, b = [], []
+    for _ in range(rng.choice([1, 1, 2])):
+        base = row()
+        t = rng.choice([0, 0, 1, -1, 2, 3, -3, rng.randint(-6, 6)])
+        A.append(base); b.append(t)
+        shape = rng.random()
+        if shape < 0.45:      # opposite row: equality (gap 0), infeasible pair (gap -1) or band (gap +1, +2)
+            gap = rng.choice([0, 0, 0, -1, 1, 2])
+            A.append([-a for a in base]); b.append(-t + gap)
+        elif shape < 0.6:     # duplicate
+            A.append(list(base)); b.append(t if rng.random() < 0.7 else t + rng.choice([-1, 1]))
+        elif shape < 0.8:     # scaled duplicate / scaled opposite
+            f = rng.choice([2, 3, -2, -3])
+            A.append([f * a for a in base]); b.append(f * t + rng.choice([0, 0, 0, 1, -1]))
+        if rng.random() < 0.3:  # and once more: three-fold degeneracy
+            f = rng.choice([1, -1, 2])
+            A.append([f * a for a in base]); b.append(f * t + (0 if f != -1 else rng.choice([0, 1])))
+    for _ in range(rng.choice([0, 0, 1, 1, 2])):
+        A.append(row()); b.append(rng.choice([0, 0, 1, 2, 3, -2, rng.randint(-5, 8)]))
+    while len(A) > 6 or len(A) + n > 10:
+        k = rng.randrange(len(A)); del A[k]; del b[k]
+    if rng.random() < 0.5:
+        order = list(range(len(A))); rng.shuffle(order)
+        A = [A[i] for i in order]; b = [b[i] for i in order]
+    c = [rng.choice([0, 1, -1, 2, -2, 3, -3, 5, -7]) for _ in range(n)]
+    minimize = rng.random() < 0.5
+    max_iter = None if rng.random() < 0.9 else rng.randint(2, 8)
+    return {"c": c, "A": A, "b": b, "minimize": minimize, "max_iter": max_iter}
+
+
 EDGE_CASES = [
     # the witness of the repaired phase-1 defect and its neighbours
     {"c": [1, 1], "A": [[-1, -1], [1, 0], [0, 1], [-1, 0]], "b": [-2, 3, 3, -1], "minimize": True, "max_iter": 1},
